@@ -10,7 +10,13 @@ import sys
 import sourmash
 from sourmash import MinHash, SourmashSignature
 from sourmash.minhash import FrozenMinHash
-from sourmash.index import LinearIndex, MultiIndex
+from sourmash.signature import FrozenSourmashSignature
+from sourmash.index import (LinearIndex, MultiIndex, LazyLinearIndex, ZipFileLinearIndex,
+                            StandaloneManifestIndex)
+from sourmash.sbt import SBT
+from sourmash.sbtmh import create_sbt_index
+from sourmash.lca.lca_db import LCA_Database
+from sourmash.picklist import SignaturePicklist
 from sourmash.manifest import CollectionManifest
 from sourmash.search import GatherDatabases, prefetch_database
 from sourmash import signature as sigmod
@@ -34,7 +40,7 @@ def heap(T):
 
 
 def exc_name(e):
-    for c in (TypeError, RuntimeError, ValueError, AssertionError, KeyError, AttributeError):
+    for c in (NotImplementedError, IndexError, TypeError, RuntimeError, ValueError, AssertionError, KeyError, AttributeError):
         if isinstance(e, c):
             return c.__name__
     return type(e).__name__
@@ -213,8 +219,494 @@ def ro(name, objs):
     return res
 
 
+
+# --------------------------------------------------------------------------------------------
+# layers 2 and 3: signature objects (table S) and collection views (table V)
+
+import re
+import shutil
+import tempfile
+
+NAME_RE = re.compile(r"^[a-z0-9]+$")
+SEQ_RE = re.compile(r"^[A-Z]+$")
+MOLS = ["DNA", "protein", "dayhoff", "hp"]
+KEYS = {"ksize": 0, "moltype": 1, "scaled": 2, "num": 3, "abund": 4, "containment": 5}
+TMPDIRS = []
+
+
+def name_tok(s):
+    if s == "-":
+        return ""
+    if not NAME_RE.match(s):
+        raise UnknownOp("name")
+    return s
+
+
+def dash(s):
+    return s if s else "-"
+
+
+def show_sig(ss):
+    try:
+        mh = ss.minhash
+        hs = mh.hashes
+        keys = list(hs.keys())
+        ab = ",".join(str(hs[k]) for k in keys) if mh.track_abundance else "-"
+        return (f"{int(isinstance(ss, FrozenSourmashSignature))}:{dash(ss.name)}:{dash(ss.filename)}:"
+                f"{mh.num}:{mh._max_hash}:{','.join(map(str, keys))}:{ab}")
+    except Exception as e:  # noqa: BLE001  (an object destroyed by a half-refused mutator)
+        return "BROKEN-" + exc_name(e)
+
+
+def sref(S, obj):
+    hs = [h for h in sorted(S) if S[h] is obj]
+    return f"s{hs[0]}" if hs else "s?"
+
+
+def vref(V, obj):
+    hs = [h for h in sorted(V) if V[h] is obj]
+    return f"v{hs[0]}" if hs else "v?"
+
+
+def kind_of(v):
+    if isinstance(v, LinearIndex):
+        return "linear"
+    if isinstance(v, LazyLinearIndex):
+        return "lazy"
+    if isinstance(v, ZipFileLinearIndex):
+        return "zipm" if v.manifest is not None else "zipnm"
+    if isinstance(v, MultiIndex):
+        return "multi"
+    if isinstance(v, StandaloneManifestIndex):
+        return "standalone"
+    if isinstance(v, SBT):
+        return "sbt"
+    if isinstance(v, LCA_Database):
+        return "lca"
+    return "?"
+
+
+def show_sel(d):
+    if d is None:
+        return "-"
+    if not d:
+        return "{}"
+    items = []
+    for k, v in d.items():
+        code = KEYS[k]
+        if v is None:
+            val = "N"
+        elif k == "moltype":
+            val = str(MOLS.index(v))
+        else:
+            val = str(int(v))
+        items.append((code, val))
+    return ",".join(f"{c}:{v}" for c, v in sorted(items))
+
+
+def show_picks(pls):
+    return "".join("(" + "+".join(sorted(pl.pickset)) + ")" for pl in pls)
+
+
+def show_sigs(v):
+    try:
+        return "[" + "/".join(sorted(show_sig(x) for x in v.signatures())) + "]"
+    except ValueError:
+        return "!ValueError"
+    except Exception as e:  # noqa: BLE001
+        return "!" + exc_name(e)
+
+
+def sbt_members(t):
+    return [leaf.data for leaf in t.leaves()]
+
+
+def show_view(v, S, V, rownum):
+    k = kind_of(v)
+    if k == "linear":
+        own = "m=" + ",".join(sref(S, x) for x in v._signatures)
+    elif k == "sbt":
+        own = "m=" + ",".join(sorted(sref(S, x) for x in sbt_members(v))) + ";p=" + show_picks(v.picklists)
+    elif k == "lazy":
+        own = "db=" + vref(V, v.db) + ";sel=" + show_sel(v.selection_dict)
+    elif k == "zipnm":
+        own = "sel=" + show_sel(v.selection_dict)
+    elif k in ("zipm", "multi", "standalone"):
+        items = []
+        for row in v.manifest.rows:
+            sg = row.get("signature")
+            items.append(f"R{rownum[id(row)]}({len(row)}.{dash(row['name'])}.{dash(row['filename'])}."
+                         f"{row['n_hashes']}.{int(bool(row['with_abundance']))}.{'-' if sg is None else sref(S, sg)})")
+        own = "rows=" + ",".join(items)
+    elif k == "lca":
+        own = f"n={len(v)};p=" + show_picks(v.picklists)
+    else:
+        own = "?"
+    return k + ";" + own + ";" + show_sigs(v)
+
+
+def world(T, S, V):
+    out = []
+    if T:
+        out.append(heap(T))
+    for h in sorted(S):
+        cls = min(g for g in S if S[g] is S[h])
+        out.append(f"s{h}@{cls}={show_sig(S[h])}")
+    rownum = {}
+    for h in sorted(V):
+        m = getattr(V[h], "manifest", None)
+        if m is not None and kind_of(V[h]) in ("zipm", "multi", "standalone"):
+            for row in m.rows:
+                rownum.setdefault(id(row), len(rownum))
+    for h in sorted(V):
+        cls = min(g for g in V if V[g] is V[h])
+        out.append(f"v{h}@{cls}={show_view(V[h], S, V, rownum)}")
+    return " ".join(out)
+
+
+def mins_of(ss):
+    return tuple(ss.minhash.hashes.keys())
+
+
+def uniform_scaled(mx, sigs):
+    return all(x.minhash.num == 0 and x.minhash._max_hash == mx and mx != 0 for x in sigs)
+
+
+def new_tmp():
+    base = os.environ.get("VERIF_TMP") or None
+    td = tempfile.mkdtemp(prefix="own_", dir=base)
+    TMPDIRS.append(td)
+    return td
+
+
+def drop_tmp():
+    while TMPDIRS:
+        shutil.rmtree(TMPDIRS.pop(), ignore_errors=True)
+
+
+def parse_kw(tokens):
+    kw = {}
+    for t in tokens:
+        if t.count("=") != 1:
+            raise UnknownOp("kw")
+        k, v = t.split("=")
+        if k not in KEYS or k in kw:
+            raise UnknownOp("kw")
+        if v == "N":
+            kw[k] = None
+            continue
+        if not v.isdigit():
+            raise UnknownOp("kw")
+        n = int(v)
+        if k == "moltype":
+            if n >= 4:
+                raise UnknownOp("kw")
+            kw[k] = MOLS[n]
+        elif k in ("abund", "containment"):
+            if n >= 2:
+                raise UnknownOp("kw")
+            kw[k] = bool(n)
+        else:
+            kw[k] = n
+    return kw
+
+
+def twice(fn):
+    """run a read-only call twice; -> 'ok' | 'err RepeatDiffers' (a consistent refusal is not C15's business)"""
+    try:
+        r1 = canon(fn())
+    except Differs:
+        return "err InputModified"
+    except Exception as e1:  # noqa: BLE001
+        try:
+            fn()
+            return "err RepeatDiffers"
+        except Differs:
+            return "err InputModified"
+        except Exception as e2:  # noqa: BLE001
+            return "ok" if type(e1) is type(e2) else "err RepeatDiffers"
+    try:
+        r2 = canon(fn())
+    except Exception:  # noqa: BLE001
+        return "err RepeatDiffers"
+    return "ok" if r1 == r2 else "err RepeatDiffers"
+
+
+def sig_ro(name, sigs):
+    a = sigs[0]
+    b = sigs[1] if len(sigs) > 1 else sigs[0]
+    if name == "md5":
+        return a.md5sum(), str(a), repr(a), len(a), hash(a)
+    if name == "eq":
+        return a == b, a != b
+    if name == "sim":
+        return a.similarity(b, downsample=True), a.jaccard(b), a.contained_by(b, downsample=True), a.max_containment(b, downsample=True)
+    if name == "save":
+        js = sigmod.save_signatures_to_json(sigs)
+        return js, [sig_digest(x) for x in sigmod.load_signatures_from_json(js)]
+    if name == "pickle":
+        return [sig_digest(pickle.loads(pickle.dumps(x))) for x in sigs]
+    if name == "copies":
+        return [(sig_digest(x.to_mutable()), sig_digest(x.to_frozen()), sig_digest(x.copy())) for x in sigs]
+    if name == "mhmut":
+        # the sketch handed out by .minhash is a private clone: whatever is done with a mutable copy of it stays outside
+        out = []
+        for x in sigs:
+            m = x.minhash.to_mutable()
+            m.add_hash(7)
+            m.clear()
+            out.append(sig_digest(x))
+        return out
+    if name == "compare":
+        from sourmash.compare import compare_all_pairs
+        m = compare_all_pairs(sigs, ignore_abundance=True, downsample=True)
+        return [[float(x).hex() for x in row] for row in m]
+    raise UnknownOp(name)
+
+
+def view_ro(name, v, qs):
+    q = qs[0] if qs else None
+    if name == "sigs":
+        return sorted(sig_digest(x) for x in v.signatures()), len(v), bool(v)
+    if name == "locs":
+        return sorted((sig_digest(x), str(loc)) for x, loc in v.signatures_with_location())
+    if name == "manifest":
+        fp = io.StringIO()
+        v.manifest.write_to_csv(fp, write_header=True)
+        return fp.getvalue(), len(v.manifest), bool(v.manifest), sorted(map(str, v.manifest.locations()))
+    if name == "picklist":
+        pl = v.manifest.to_picklist()
+        return sorted(map(str, pl.pickset))
+    if q is None:
+        raise UnknownOp("query")
+    if name == "search":
+        return [(r.score, sig_digest(r.signature)) for r in v.search(q, threshold=0.0)]
+    if name == "searchc":
+        return [(r.score, sig_digest(r.signature)) for r in v.search(q, threshold=0.0, do_containment=True)]
+    if name == "prefetch":
+        return sorted((r.score, sig_digest(r.signature)) for r in v.prefetch(q, 0))
+    if name == "best":
+        r = v.best_containment(q, threshold_bp=0)
+        return None if r is None else (r.score, sig_digest(r.signature))
+    if name == "gather":
+        counters = [v.counter_gather(q, 0)]
+        return [(g.match.md5sum(), g.intersect_bp, g.f_unique_to_query, g.remaining_bp)
+                for g in GatherDatabases(q, counters, threshold_bp=0)]
+    if name == "gatheri":
+        # gather without prefetch: the index itself plays the counter
+        return [(g.match.md5sum(), g.intersect_bp, g.remaining_bp) for g in GatherDatabases(q, [v], threshold_bp=0)]
+    raise UnknownOp(name)
+
+
+# op -> (number of fixed arguments, index of the first non-handle fixed argument or None, variadic handles?)
+SYNTAX = {
+    "snew": "hhnn", "smh": "hh", "ssetmh": "hh", "sname": "hn", "sfile": "hn", "saddseq": "hbq", "saddprot": "hq",
+    "ssetstate": "hhnn", "sintofrozen": "h", "stomut": "hh", "stofrozen": "hh", "scopy": "hh", "spickle": "hh",
+    "supdflat": "hh", "supdname": "hhn", "sgatherinit": "hh", "scg": "hh*", "sro": "w*", "vlinear": "h*",
+    "vlazy": "hh", "vzip": "hb*", "vstandalone": "h*", "vmulti": "h*", "vsbt": "h*", "vlca": "h*", "vinsert": "hh",
+    "vsel": "hhK", "vselpick": "hhN", "vget": "hhh", "vro": "wh*",
+}
+
+
+def check_syntax(op, a):
+    """same well-formedness as the model's parser: anything else is `bad-op` on both sides"""
+    pat = SYNTAX[op]
+    fixed = pat.rstrip("*KN")
+    tail = pat[len(fixed):]
+    if len(a) < len(fixed) or (not tail and len(a) != len(fixed)):
+        raise UnknownOp("arity")
+    for c, x in zip(fixed, a):
+        if c == "h" and not x.isdigit():
+            raise UnknownOp("handle")
+        if c == "b" and x not in ("0", "1"):
+            raise UnknownOp("flag")
+        if c == "n":
+            name_tok(x)
+        if c == "q" and not SEQ_RE.match(x):
+            raise UnknownOp("seq")
+    rest = a[len(fixed):]
+    if tail == "*" and not all(x.isdigit() for x in rest):
+        raise UnknownOp("handle")
+    if tail == "N":
+        for x in rest:
+            name_tok(x)
+    if tail == "K":
+        parse_kw(rest)
+
+
+def obj_op(op, a, T, S, V):
+    """layers 2 and 3; returns the result string; raises UnknownOp/KeyError for bad-op"""
+    i = int
+    check_syntax(op, a)
+    if op == "snew":
+        S[i(a[0])] = SourmashSignature(T[i(a[1])], name=name_tok(a[2]), filename=name_tok(a[3]))
+    elif op == "smh":
+        T[i(a[0])] = S[i(a[1])].minhash
+    elif op == "ssetmh":
+        mh = T[i(a[1])]
+        S[i(a[0])].minhash = mh
+    elif op == "sname":
+        x = name_tok(a[1])
+        S[i(a[0])].name = x
+    elif op == "sfile":
+        x = name_tok(a[1])
+        S[i(a[0])].filename = x
+    elif op == "saddseq":
+        if a[1] not in ("0", "1") or not SEQ_RE.match(a[2]):
+            raise UnknownOp("seq")
+        S[i(a[0])].add_sequence(a[2], bool(i(a[1])))
+    elif op == "saddprot":
+        if not SEQ_RE.match(a[1]):
+            raise UnknownOp("seq")
+        S[i(a[0])].add_protein(a[1])
+    elif op == "ssetstate":
+        ss, mh, nm, fn = S[i(a[0])], T[i(a[1])], name_tok(a[2]), name_tok(a[3])
+        ss.__setstate__((mh, nm, fn))
+    elif op == "sintofrozen":
+        S[i(a[0])].into_frozen()
+    elif op == "stomut":
+        x = S[i(a[1])].to_mutable(); S[i(a[0])] = x
+    elif op == "stofrozen":
+        x = S[i(a[1])].to_frozen(); S[i(a[0])] = x
+    elif op == "scopy":
+        x = S[i(a[1])].copy(); S[i(a[0])] = x
+    elif op == "spickle":
+        x = pickle.loads(pickle.dumps(S[i(a[1])])); S[i(a[0])] = x
+    elif op == "supdflat":
+        src = S[i(a[1])]
+        with src.update() as q:
+            q.minhash = q.minhash.flatten()
+        S[i(a[0])] = q
+    elif op == "supdname":
+        src, x = S[i(a[1])], name_tok(a[2])
+        with src.update() as q:
+            q.name = x
+        S[i(a[0])] = q
+    elif op == "sgatherinit":
+        src = S[i(a[1])]
+        gd = GatherDatabases(src, [])
+        if gd.orig_query is not src:
+            raise Differs("orig_query")
+        S[i(a[0])] = gd.query
+    elif op == "scg":
+        src = S[i(a[1])]
+        ds = [S[i(h)] for h in a[2:]]
+        if src.minhash.num != 0 or not uniform_scaled(src.minhash._max_hash, ds):
+            raise UnknownOp("domain")
+        cg = LinearIndex(ds).counter_gather(src, 0)
+        T[i(a[0])] = cg.orig_query_mh
+    elif op == "sro":
+        sigs = [S[i(h)] for h in a[1:]]
+        if not sigs:
+            raise UnknownOp("no operands")
+        if a[0] not in ("md5", "eq", "sim", "save", "pickle", "copies", "mhmut", "compare"):
+            raise UnknownOp(a[0])
+        return twice(lambda: sig_ro(a[0], sigs))
+    elif op == "vlinear":
+        V[i(a[0])] = LinearIndex([S[i(h)] for h in a[1:]])
+    elif op == "vlazy":
+        db = V[i(a[1])]
+        if not isinstance(db, LinearIndex):
+            raise UnknownOp("domain")
+        V[i(a[0])] = LazyLinearIndex(db)
+    elif op in ("vzip", "vstandalone"):
+        if op == "vzip":
+            if a[1] not in ("0", "1"):
+                raise UnknownOp("flag")
+            hs = a[2:]
+        else:
+            hs = a[1:]
+        sigs = [S[i(h)] for h in hs]
+        if not sigs or len({mins_of(x) for x in sigs}) != len(sigs):
+            raise UnknownOp("domain")
+        td = new_tmp()
+        if op == "vzip":
+            from sourmash.sourmash_args import SaveSignaturesToLocation
+            zp = os.path.join(td, "c.zip")
+            with SaveSignaturesToLocation(zp) as sv:
+                for x in sigs:
+                    sv.add(x)
+            V[i(a[0])] = ZipFileLinearIndex.load(zp, use_manifest=bool(i(a[1])))
+        else:
+            locs = []
+            for n, x in enumerate(sigs):
+                pth = os.path.join(td, f"{n}.sig")
+                with open(pth, "w") as fp:
+                    sigmod.save_signatures_to_json([x], fp)
+                locs.append((x, pth))
+            mf = CollectionManifest.create_manifest(iter(locs), include_signature=False)
+            V[i(a[0])] = StandaloneManifestIndex(mf, os.path.join(td, "mf.csv"), prefix="")
+    elif op == "vmulti":
+        idxs = [V[i(h)] for h in a[1:]]
+        if not all(isinstance(x, LinearIndex) for x in idxs):
+            raise UnknownOp("domain")
+        V[i(a[0])] = MultiIndex.load(idxs, [None] * len(idxs), parent="")
+    elif op in ("vsbt", "vlca"):
+        sigs = [S[i(h)] for h in a[1:]]
+        if not sigs or not uniform_scaled(sigs[0].minhash._max_hash, sigs):
+            raise UnknownOp("domain")
+        if op == "vsbt":
+            t = create_sbt_index()
+            for x in sigs:
+                t.insert(x)
+            t._own_scaled = sigs[0].minhash.scaled
+            V[i(a[0])] = t
+        else:
+            names = [x.name for x in sigs]
+            if not all(names) or len(set(names)) != len(names):
+                raise UnknownOp("domain")
+            db = LCA_Database(21, sigs[0].minhash.scaled, "DNA")
+            for x in sigs:
+                db.insert(x)
+            V[i(a[0])] = db
+    elif op == "vinsert":
+        v, x = V[i(a[0])], S[i(a[1])]
+        k = kind_of(v)
+        if k == "sbt" and (x.minhash.num != 0 or x.minhash.scaled != v._own_scaled):
+            raise UnknownOp("domain")
+        if k == "lca" and (x.minhash.num != 0 or x.minhash.scaled != v.scaled or not x.name):
+            raise UnknownOp("domain")
+        v.insert(x)
+    elif op == "vsel":
+        v = V[i(a[1])]
+        kw = parse_kw(a[2:])
+        x = v.select(**kw)
+        V[i(a[0])] = x
+    elif op == "vselpick":
+        v = V[i(a[1])]
+        names = [name_tok(x) for x in a[2:]]
+        if kind_of(v) not in ("sbt", "lca"):
+            raise UnknownOp("domain")
+        pl = SignaturePicklist("name")
+        pl.init(names)
+        x = v.select(picklist=pl)
+        V[i(a[0])] = x
+    elif op == "vget":
+        v = V[i(a[1])]
+        if kind_of(v) in ("sbt", "lca"):
+            raise UnknownOp("domain")
+        got = list(v.signatures())
+        if i(a[2]) >= len(got):
+            return "err IndexError"
+        S[i(a[0])] = got[i(a[2])]
+    elif op == "vro":
+        v = V[i(a[1])]
+        qs = [S[i(h)] for h in a[2:]]
+        if a[0] not in ("sigs", "locs", "manifest", "picklist", "search", "searchc", "prefetch", "best", "gather", "gatheri"):
+            raise UnknownOp(a[0])
+        return twice(lambda: view_ro(a[0], v, qs))
+    else:
+        raise UnknownOp(op)
+    return "ok"
+
+
+OBJ_OPS = {"snew", "smh", "ssetmh", "sname", "sfile", "saddseq", "saddprot", "ssetstate", "sintofrozen", "stomut",
+           "stofrozen", "scopy", "spickle", "supdflat", "supdname", "sgatherinit", "scg", "sro", "vlinear", "vlazy",
+           "vzip", "vstandalone", "vmulti", "vsbt", "vlca", "vinsert", "vsel", "vselpick", "vget", "vro"}
+
+
 def main():
-    T = {}
+    T, S, V = {}, {}, {}
     out = sys.stdout
     for line in sys.stdin:
         w = line.split()
@@ -223,12 +715,15 @@ def main():
             continue
         op, a = w[0], w[1:]
         if op == "#":
-            T = {}
+            T, S, V = {}, {}, {}
+            drop_tmp()
             out.write("#\n")
             continue
         res = "ok"
         try:
-            if op == "new":
+            if op in OBJ_OPS:
+                res = obj_op(op, a, T, S, V)
+            elif op == "new":
                 r, num, scaled, track = map(int, a)
                 T[r] = MinHash(num, 21, track_abundance=bool(track), scaled=scaled)
             elif op == "add":
@@ -301,8 +796,9 @@ def main():
         if res == "bad-op":
             out.write("bad-op\n")
         else:
-            out.write(res + " | " + heap(T) + "\n")
+            out.write(res + " | " + world(T, S, V) + "\n")
     out.flush()
+    drop_tmp()
 
 
 if __name__ == "__main__":
